@@ -17,8 +17,17 @@
 //   V B ax ay az sx sy sz tx ty tz   (N only) internal box anchor, sides and fl(anchor+sides)
 //   V R i x y z                      (N only) internal position of generator i
 //   V W i c0 .. c5                   (N only) mirrored coordinate of generator i in the 6 wall copies (L R F B Bo T) as the class computes them
+//   V T c0x c0y c0z c1x .. c3z       (N only) the four corners of the all-enclosing tetrahedron in the internal representation
+//   V P ok nbad                      (N only) precondition of the exact predicates (ExactGeometricTests works on the 52-bit
+//                                    mantissas and needs every coordinate in [1,2)): ok = 1 iff all internal coordinates printed
+//                                    above are in [1,2).  When ok = 0 the grid is NOT constructed (the predicates would run on
+//                                    garbage; the class can then loop forever or read out of bounds) unless C15_FORCE=1 is set.
 //   V C i volume cx cy cz nfaces
 //   V F i neighbour area mx my mz nvert
+//   V D i a b c                      (N1 only) the Delaunay tetrahedra (g_i, a, b, c) of cell i's final triangulation that contain g_i: the
+//                                    class computes each vertex of the cell as the circumcentre of one of them (NewVoronoiCellConstructor::
+//                                    get_cell).  Obtained by calling the class's own compute_cell(i, constructor) once more and reading the
+//                                    constructor's private _tetrahedra/_vertices.  Used ONLY to scale the tolerance of the numeric oracle.
 //   V L q index
 //   V X <reason>                     child died (signal / exit code)
 //   V E                              end of variant
@@ -107,7 +116,7 @@ int main() {
       fflush(stdout);
       const pid_t pid = fork();
       if (pid == 0) {
-        alarm(600);
+        alarm(getenv("C15_ALARM") ? atoi(getenv("C15_ALARM")) : 600);
         if (tag[0] == 'N') {
           NewVoronoiGrid g(pos, box);
           const Box<> rb = g._real_rescaled_box._box;
@@ -125,8 +134,58 @@ int main() {
             }
             printf("\n");
           }
-          g.compute_grid(nthr);
-          dump(tag, g, n, q);
+          printf("%s T", tag);
+          size_t nbad = 0;
+          for (uint_fast32_t c = 0; c < 4; ++c) {
+            const CoordinateVector<> cp = g._real_rescaled_box.get_position(NEWVORONOICELL_BOX_CORNER0 + c, CoordinateVector<>(0.));
+            for (int a = 0; a < 3; ++a) {
+              printf(" %016llx", H(cp[a]));
+              if (!(cp[a] >= 1. && cp[a] < 2.))
+                ++nbad;
+            }
+          }
+          printf("\n");
+          for (size_t i = 0; i < n; ++i) {
+            const CoordinateVector<> &p = g._real_rescaled_positions[i];
+            for (int a = 0; a < 3; ++a)
+              if (!(p[a] >= 1. && p[a] < 2.))
+                ++nbad;
+            for (uint_fast32_t wl = 0; wl < 6; ++wl) {
+              const double c = g._real_rescaled_box.get_position(NEWVORONOICELL_BOX_LEFT + wl, p)[wl / 2];
+              if (!(c >= 1. && c < 2.))
+                ++nbad;
+            }
+          }
+          printf("%s P %d %zu\n", tag, nbad == 0 ? 1 : 0, nbad);
+          if (nbad == 0 || getenv("C15_FORCE") != nullptr) {
+            g.compute_grid(nthr);
+            dump(tag, g, n, q);
+            if (nthr == 1) {
+              NewVoronoiCellConstructor *con = new NewVoronoiCellConstructor();
+              for (size_t i = 0; i < n; ++i) {
+                g.compute_cell(i, *con);
+                for (uint_fast32_t t = 0; t < con->_tetrahedra_size; ++t) {
+                  if (!con->_tetrahedra[t].is_active())
+                    continue;
+                  unsigned long v[4];
+                  int zero = -1;
+                  for (int a = 0; a < 4; ++a) {
+                    v[a] = con->_tetrahedra[t].get_vertex(a);
+                    if (v[a] == 0)
+                      zero = a;
+                  }
+                  if (zero < 0)
+                    continue;
+                  printf("%s D %zu", tag, i);
+                  for (int a = 0; a < 4; ++a)
+                    if (a != zero)
+                      printf(" %lu", (unsigned long)con->_vertices[v[a]]);
+                  printf("\n");
+                }
+              }
+              delete con;
+            }
+          }
         } else {
           OldVoronoiGrid g(pos, box);
           g.compute_grid(nthr);
